@@ -1284,6 +1284,13 @@ func readMultipartForm(r io.Reader, boundary string, size, maxInMemoryFileSize i
 	if err != nil {
 		return nil, fmt.Errorf("cannot read multipart/form-data body: %w", err)
 	}
+	// The form may end before the declared body does (epilogue after the
+	// closing boundary): consume the rest of the body, otherwise it would be
+	// parsed as the next message on the connection.
+	if _, err = io.Copy(io.Discard, lr); err != nil {
+		_ = f.RemoveAll()
+		return nil, fmt.Errorf("cannot read multipart/form-data body: %w", err)
+	}
 	return f, nil
 }
 
